@@ -492,12 +492,52 @@ def render_xsd(t):
     return "<xsd:%s>%s</xsd:%s>" % (t[4], "".join(render_xsd(k) for k in t[3]), t[4])
 
 
-def wrapper_schema(t, named):
+def wrapper_schema(t, named, wel="Wrapper", tname="WT"):
     body = render_xsd(t)
     if named:
-        return ('<xsd:element name="Wrapper" type="tns:WT"/>'
-                '<xsd:complexType name="WT">%s</xsd:complexType>' % body)
-    return '<xsd:element name="Wrapper"><xsd:complexType>%s</xsd:complexType></xsd:element>' % body
+        return ('<xsd:element name="%s" type="tns:%s"/>'
+                '<xsd:complexType name="%s">%s</xsd:complexType>' % (wel, tname, tname, body))
+    return '<xsd:element name="%s"><xsd:complexType>%s</xsd:complexType></xsd:element>' % (wel, body)
+
+
+MULTI_WSDL = """<?xml version='1.0' encoding='UTF-8'?>
+<wsdl:definitions targetNamespace="my-namespace" xmlns:tns="my-namespace"
+ xmlns:soap="http://schemas.xmlsoap.org/wsdl/soap/"
+ xmlns:wsdl="http://schemas.xmlsoap.org/wsdl/"
+ xmlns:xsd="http://www.w3.org/2001/XMLSchema">
+  <wsdl:types>
+    <xsd:schema targetNamespace="my-namespace" elementFormDefault="qualified">
+%(schema)s
+    </xsd:schema>
+  </wsdl:types>
+%(messages)s
+%(porttypes)s
+%(bindings)s
+  <wsdl:service name="dummy">
+%(ports)s
+  </wsdl:service>
+</wsdl:definitions>
+"""
+
+
+def multiport_wsdl(trees):
+    """One service; port<i> -> binding<i> -> portType<i> whose operation f takes Wrapper<i>."""
+    schema, messages, porttypes, bindings, ports = [], [], [], [], []
+    for i, (t, named) in enumerate(trees, 1):
+        schema.append(wrapper_schema(t, named, "Wrapper%d" % i, "WT%d" % i))
+        messages.append('<wsdl:message name="fRequest%d"><wsdl:part name="parameters" element="tns:Wrapper%d"/>'
+                        '</wsdl:message>' % (i, i))
+        porttypes.append('<wsdl:portType name="portType%d"><wsdl:operation name="f">'
+                         '<wsdl:input message="tns:fRequest%d"/></wsdl:operation></wsdl:portType>' % (i, i))
+        bindings.append('<wsdl:binding name="binding%d" type="tns:portType%d">'
+                        '<soap:binding style="document" transport="http://schemas.xmlsoap.org/soap/http"/>'
+                        '<wsdl:operation name="f"><soap:operation soapAction="my-soap-action" style="document"/>'
+                        '<wsdl:input><soap:body use="literal"/></wsdl:input></wsdl:operation></wsdl:binding>' % (i, i))
+        ports.append('<wsdl:port name="port%d" binding="tns:binding%d">'
+                     '<soap:address location="http://unused.invalid/svc%d"/></wsdl:port>' % (i, i, i))
+    return (MULTI_WSDL % dict(schema="\n".join(schema), messages="\n".join(messages),
+                              porttypes="\n".join(porttypes), bindings="\n".join(bindings),
+                              ports="\n".join(ports))).encode("utf-8")
 
 
 def wrap_tree(t, named):
@@ -568,11 +608,15 @@ def make_recorder():
     return Recorder()
 
 
-def call_client(client, recorder, args, kwargs):
+def service_of(client, port=None):
+    return client.service if port is None else client.service[port]
+
+
+def call_client(client, recorder, args, kwargs, port=None):
     """-> ('sent', bytes) | ('TypeError', text, n_sent) | ('other', text, n_sent)"""
     n0 = len(recorder.sent)
     try:
-        client.service.f(*args, **kwargs)
+        service_of(client, port).f(*args, **kwargs)
     except TypeError as e:
         return ("TypeError", str(e), len(recorder.sent) - n0)
     except Exception as e:   # noqa
@@ -593,10 +637,10 @@ def body_children(envelope):
     return first, [(c.name, c.own_text() if not c.elements() else None) for c in first.elements()]
 
 
-def read_param_defs(client):
+def read_param_defs(client, port=None):
     """Document.param_defs of operation f with ancestry objects interned in
     order of first appearance -> [(name id, optional, ((id, choice), ...))]"""
-    m = client.service.f.method
+    m = service_of(client, port).f.method
     defs = m.binding.input.param_defs(m)
     ids = {}
     out = []
@@ -828,81 +872,100 @@ def run(ck):
     ccases, cmeta = [], []
     client_structs = client_structures(ck)
     text_bad = []
-    for si, (t, named) in enumerate(client_structs):
+    serial = [0]
+
+    def exercise(t, named, c1, rec1, c0, rec0, port=None, wel="Wrapper", scen=None, thin=False):
+        """Drive operation f (of `port`) of the unwrapping client c1 and of the
+        unwrap=False client c0 built over the structure t; every call is judged
+        against t - however the clients were obtained (scen describes it)."""
+        serial[0] += 1
+        si = serial[0]
         n = len(flatten(t))
-        wsdl = sudsutil.doc_wsdl(wrapper_schema(t, named))
-        rec1, rec0 = make_recorder(), make_recorder()
+        where = "" if not scen else " [%s]" % scen["what"]
+        base = {"kind": "client", "tree": t, "named": named, "scenario": scen}
         try:
-            c1 = sudsutil.client_from_wsdl(wsdl, transport=rec1)
-            c0 = sudsutil.client_from_wsdl(wsdl, transport=rec0, unwrap=False)
-            got_params, _ = read_param_defs(c1)
-            got0, _ = read_param_defs(c0)
+            got_params, _ = read_param_defs(c1, port)
+            got0, _ = read_param_defs(c0, port)
         except Exception as e:   # noqa
-            ck.failing_input("C08:client-construction", "a client for the structure %s cannot be built or inspected: %r"
-                             % (c_tree(t), e), {"kind": "client", "tree": t, "named": named})
-            continue
+            ck.failing_input("C08:client-construction", "the operation over the structure %s cannot be inspected%s: %r"
+                             % (c_tree(t), where, e), dict(base))
+            return
         full = wrap_tree(t, named)
         ct, cp = c_tree(full), c_params(got_params)
-        vectors = core_vectors(n) + extra_vectors(n) if n <= 3 else \
-            [random_vector(rng, t, n) for _ in range(40)] + rng.sample(core_vectors(n), 24) + \
-            rng.sample(extra_vectors(n), 16)
+        if thin:
+            vectors = (core_vectors(n) + rng.sample(extra_vectors(n), min(12, 9 << n))) if n <= 3 else \
+                [random_vector(rng, t, n) for _ in range(16)] + rng.sample(core_vectors(n), 12) + \
+                rng.sample(extra_vectors(n), 8)
+        else:
+            vectors = core_vectors(n) + extra_vectors(n) if n <= 3 else \
+                [random_vector(rng, t, n) for _ in range(40)] + rng.sample(core_vectors(n), 24) + \
+                rng.sample(extra_vectors(n), 16)
         vectors = [v for v in vectors if len(set(k for k, _ in v[1])) == len(v[1])]
         by_binding = {}
         required_outside = [nm for nm, opt, anc in flatten(t) if not opt and not any(c for _, c in anc)]
-        # values: every vector with truthy values, and once more (checking on) with a seeded
-        # half of the value ids replaced by defined-but-falsy objects - the same id always by
-        # the same object, so that call styles binding the same values stay comparable
+        # values: every vector with truthy values (checking on; checking off for the all-positional /
+        # all-keyword splits and a third of the rest), and - once per definedness pattern, not per
+        # split - with a seeded half of the value ids replaced by defined-but-falsy objects (the same
+        # id always by the same object, so call styles binding the same values stay comparable)
         kindmap = {rng.randint(1, n): rng.choice(CLIENT_FALSY_KINDS)}
 
         def kind_for(i, v):
             if v not in kindmap:
                 kindmap[v] = rng.choice(CLIENT_FALSY_KINDS) if rng.random() < 0.5 else 0
             return kindmap[v]
-        runs = [(e, a_, k_) for e in (True, False) for a_, k_ in vectors]
+        runs = [(True, a_, k_) for a_, k_ in vectors]
+        runs += [(False, a_, k_) for j, (a_, k_) in enumerate(vectors)
+                 if len(a_) in (0, n) or j % 3 == 0]
+        seen_patterns = set()
         for v in vectors:
+            pattern = (tuple(x is not None for x in loose_bind(n, v[0], v[1])), len(v[0]) > n,
+                       tuple(sorted(k for k, _ in v[1] if k > n or k <= len(v[0]))))
+            if pattern in seen_patterns and len(v[0]) not in (0, n):
+                continue
+            seen_patterns.add(pattern)
             fv = falsify(v, kind_for)
             if fv != (list(v[0]), list(v[1])):
                 runs.append((True, fv[0], fv[1]))
         for extra, args, kw in runs:
             c1.set_options(extraArgumentErrors=extra)
-            if True:
-                if any(v is not None and v >= KSTEP for v in args) or any(v is not None and v >= KSTEP for _, v in kw):
-                    ck.count("client:falsy-value")
-                a = [pval(v) for v in args]
-                k = dict((pname(nm), pval(v)) for nm, v in kw)
-                r = call_client(c1, rec1, a, k)
-                if r[0] == "sent":
-                    cres = "CSent"
-                elif r[0] == "TypeError":
-                    cres = "(CErr %s)" % classify_message(r[1])
-                    if classify_message(r[1]) == "ROther":
-                        text_bad.append((t, named, args, kw, extra, r))
-                else:
-                    cres = "(CErr ROther)"
+            if any(v is not None and v >= KSTEP for v in args) or any(v is not None and v >= KSTEP for _, v in kw):
+                ck.count("client:falsy-value")
+            a = [pval(v) for v in args]
+            k = dict((pname(nm), pval(v)) for nm, v in kw)
+            r = call_client(c1, rec1, a, k, port)
+            if r[0] == "sent":
+                cres = "CSent"
+            elif r[0] == "TypeError":
+                cres = "(CErr %s)" % classify_message(r[1])
+                if classify_message(r[1]) == "ROther":
                     text_bad.append((t, named, args, kw, extra, r))
-                if r[0] != "sent" and r[2]:
-                    ck.failing_input("C08:sent-despite-error",
-                                     "the call was refused (%s) but %d request(s) had already gone to the transport"
-                                     % (r[1], r[2]),
-                                     {"kind": "client", "tree": t, "named": named, "args": args, "kw": kw, "extra": extra})
-                body = []
-                if r[0] == "sent":
-                    try:
-                        first, kids = body_children(r[1])
-                        body = decode_body(kids, loose_bind(n, args, kw))
-                        if first.name != "Wrapper":
-                            body = [(999, None)]
-                    except Exception:   # noqa
+            else:
+                cres = "(CErr ROther)"
+                text_bad.append((t, named, args, kw, extra, r))
+            if r[0] != "sent" and r[2]:
+                ck.failing_input("C08:sent-despite-error",
+                                 "the call was refused (%s) but %d request(s) had already gone to the transport%s"
+                                 % (r[1], r[2], where), dict(base, args=args, kw=kw, extra=extra))
+            body = []
+            if r[0] == "sent":
+                try:
+                    first, kids = body_children(r[1])
+                    body = decode_body(kids, loose_bind(n, args, kw))
+                    if first.name != wel:
                         body = [(999, None)]
-                ccases.append("mkCC %s %s %s %s %s %s %s" % (cbool(extra), ct, cp, c_values(args), c_kw(kw), cres,
-                                                             c_kw(body)))
-                cmeta.append((t, named, args, kw, extra, r[:2]))
-                ck.seen(("client", ct, tuple(args), tuple(kw), extra), nontrivial=True)
-                ck.count("client:%s" % (cres.strip("()").split(" ")[-1] if r[0] != "sent" else "sent")
-                         if r[0] != "TypeError" else "client:" + classify_message(r[1]).strip("()").split(" ")[0])
-                b = py_bind(n, args, kw)
-                if r[0] == "sent" and b is not None:
-                    by_binding.setdefault(b, []).append((args, kw, extra, r[1]))
+                except Exception:   # noqa
+                    body = [(999, None)]
+            ccases.append("mkCC %s %s %s %s %s %s %s" % (cbool(extra), ct, cp, c_values(args), c_kw(kw), cres,
+                                                         c_kw(body)))
+            cmeta.append((t, named, args, kw, extra, r[:2], scen))
+            ck.seen(("client", si, ct, tuple(args), tuple(kw), extra), nontrivial=True)
+            ck.count("client:%s" % (cres.strip("()").split(" ")[-1] if r[0] != "sent" else "sent")
+                     if r[0] != "TypeError" else "client:" + classify_message(r[1]).strip("()").split(" ")[0])
+            if scen:
+                ck.count("client:" + scen["type"])
+            b = py_bind(n, args, kw)
+            if r[0] == "sent" and b is not None:
+                by_binding.setdefault(b, []).append((args, kw, extra, r[1]))
         # call styles: one envelope per bound-value tuple
         for b, lst in sorted(by_binding.items(), key=repr):
             envs = set(x[3] for x in lst)
@@ -912,9 +975,8 @@ def run(ck):
                 other = next(x for x in lst if x[3] != first[3])
                 ck.failing_input("C08:call-style-envelope-differs",
                                  "the same values %r bound positionally/by keyword give different requests: "
-                                 "f(*%r, **%r) vs f(*%r, **%r)" % (b, first[0], first[1], other[0], other[1]),
-                                 {"kind": "client", "tree": t, "named": named, "args": first[0], "kw": first[1],
-                                  "extra": first[2], "args2": other[0], "kw2": other[1]})
+                                 "f(*%r, **%r) vs f(*%r, **%r)%s" % (b, first[0], first[1], other[0], other[1], where),
+                                 dict(base, args=first[0], kw=first[1], extra=first[2], args2=other[0], kw2=other[1]))
             # unwrap off: one dict / one factory object with the same values
             if all(b[nm - 1] is not None for nm in required_outside):
                 vals = dict((pname(i + 1), pval(v)) for i, v in enumerate(b) if v is not None)
@@ -922,44 +984,44 @@ def run(ck):
                 for style in ("dict", "dict-reversed", "object", "keyword-dict"):
                     try:
                         if style == "object":
-                            o = c0.factory.create("Wrapper")
+                            o = c0.factory.create(wel)
                             for kk, vv in vals.items():
                                 setattr(o, kk, vv)
-                            r0 = call_client(c0, rec0, [o], {})
+                            r0 = call_client(c0, rec0, [o], {}, port)
                         elif style == "dict":
-                            r0 = call_client(c0, rec0, [dict(vals)], {})
+                            r0 = call_client(c0, rec0, [dict(vals)], {}, port)
                         elif style == "dict-reversed":      # key order of the dict must not matter
-                            r0 = call_client(c0, rec0, [dict(reversed(list(vals.items())))], {})
+                            r0 = call_client(c0, rec0, [dict(reversed(list(vals.items())))], {}, port)
                         else:
-                            r0 = call_client(c0, rec0, [], {client_param_name(c0): dict(vals)})
+                            r0 = call_client(c0, rec0, [], {client_param_name(c0, port): dict(vals)}, port)
                     except Exception as e:   # noqa
                         r0 = ("other", repr(e), 0)
                     ck.count("client:unwrap-off-" + style)
-                    ck.seen(("unwrap-off", ct, b, style), nontrivial=True)
+                    ck.seen(("unwrap-off", si, ct, b, style), nontrivial=True)
                     same = r0[0] == "sent" and _same_infoset(r0[1], ref)
                     if not same:
                         ck.failing_input("C08:unwrap-off-request-differs",
                                          "with unwrap=False, f(<%s holding %r>) does not send the request that "
-                                         "f(**%r) sends with unwrapping on (%s)" % (style, vals, vals, r0[:2] if r0[0] != "sent" else "different XML"),
-                                         {"kind": "client-unwrap", "tree": t, "named": named, "values": vals, "style": style})
+                                         "f(**%r) sends with unwrapping on (%s)%s"
+                                         % (style, vals, vals, r0[:2] if r0[0] != "sent" else "different XML", where),
+                                         dict(base, kind="client-unwrap", values=dict((kk, val_id(vv)) for kk, vv in vals.items()),
+                                              style=style))
         # unwrap off: the operation takes exactly one parameter (named after the wrapper element)
         full0 = ("L", 1, False)
-        cp0 = c_params([(1, p[1], p[2]) for p in got0])
-        wname = client_param_name(c0)
+        cp0 = c_params([(1 if len(got0) == 1 else p[0], p[1], p[2]) for p in got0])
+        wname = client_param_name(c0, port)
 
-        def nid0(s):
-            return 1 if s == wname else name_id(s)
+        def nid0(s_):
+            return 1 if s_ == wname and len(got0) == 1 else name_id(s_)
         arity_calls = (([{}, {}], {}, [1, 2], []),
                        ([{}], {"u1": {}}, [1], [(UNKNOWN_BASE + 1, 3)]),
-                       ([{}], {wname: {}}, [1], [(1, 3)]),
+                       ([{}], {wel: {}}, [1], [(1, 3)]),
                        ([], {}, [], []),
-                       ([], {wname: {}}, [], [(1, 3)]))
+                       ([], {wel: {}}, [], [(1, 3)]))
         for extra in (True, False):
             c0.set_options(extraArgumentErrors=extra)
             for a0, k0, ia, ik in arity_calls:
-                if len(got0) != 1:
-                    break
-                r = call_client(c0, rec0, list(a0), dict(k0))
+                r = call_client(c0, rec0, list(a0), dict(k0), port)
                 cres = "CSent" if r[0] == "sent" else "(CErr %s)" % (
                     classify_message(r[1], name_id=nid0) if r[0] == "TypeError" else "ROther")
                 body = []
@@ -970,19 +1032,86 @@ def run(ck):
                         root = sudsutil.expat_parse(r[1])
                         els = root.find("Body").elements()
                         given = ia[0] if ia else dict(ik).get(1)
-                        body = [(1, given)] if [e.name for e in els] == [wname] else [(999, None)]
+                        body = [(1, given)] if [e.name for e in els] == [wel] and not els[0].elements() \
+                            else [(999, None)]
                     except Exception:   # noqa
                         body = [(999, None)]
                 ccases.append("mkCC %s %s %s %s %s %s %s" % (cbool(extra), c_tree(full0), cp0, c_values(ia), c_kw(ik),
                                                              cres, c_kw(body)))
-                cmeta.append((full0, named, ia, ik, extra, r[:2]))
+                cmeta.append((full0, named, ia, ik, extra, r[:2],
+                              dict(scen or {}, unwrap_off_arity=True, wrapper=wel, structure=c_tree(t),
+                                   what=("unwrap=False, operation over %s%s" % (c_tree(t), where)))))
                 ck.seen(("client0", si, tuple(ia), tuple(ik), extra), nontrivial=False)
                 ck.count("client:unwrap-off-arity")
                 if r[0] != "sent" and r[2]:
-                    ck.failing_input("C08:sent-despite-error", "unwrap=False: refused (%s) after sending" % r[1],
-                                     {"kind": "client", "tree": t, "named": named, "args": ia, "kw": ik, "extra": extra})
+                    ck.failing_input("C08:sent-despite-error", "unwrap=False: refused (%s) after sending%s" % (r[1], where),
+                                     dict(base, args=ia, kw=ik, extra=extra))
+
+    # 2a. one WSDL, one port per client (no cache)
+    for t, named in client_structs:
+        wsdl = sudsutil.doc_wsdl(wrapper_schema(t, named))
+        rec1, rec0 = make_recorder(), make_recorder()
+        try:
+            c1 = sudsutil.client_from_wsdl(wsdl, transport=rec1)
+            c0 = sudsutil.client_from_wsdl(wsdl, transport=rec0, unwrap=False)
+        except Exception as e:   # noqa
+            ck.failing_input("C08:client-construction", "a client for the structure %s cannot be built: %r"
+                             % (c_tree(t), e), {"kind": "client", "tree": t, "named": named})
+            continue
+        exercise(t, named, c1, rec1, c0, rec0)
+
+    # 2b. one service with several ports whose port types define a same-named operation f with
+    # DIFFERENT parameter structures; every port is called on ONE client, in both orders, and
+    # judged against its own structure
+    for trees in multiport_structures(ck, client_structs):
+        wsdl = multiport_wsdl(trees)
+        for order in (list(range(len(trees))), list(range(len(trees)))[::-1]):
+            rec1, rec0 = make_recorder(), make_recorder()
+            try:
+                c1 = sudsutil.client_from_wsdl(wsdl, transport=rec1)
+                c0 = sudsutil.client_from_wsdl(wsdl, transport=rec0, unwrap=False)
+            except Exception as e:   # noqa
+                ck.failing_input("C08:client-construction", "a client for a %d-port service cannot be built: %r"
+                                 % (len(trees), e), {"kind": "client-multiport", "trees": [x[0] for x in trees]})
+                break
+            for pi in order:
+                t, named = trees[pi]
+                scen = {"type": "multiport", "trees": [x[0] for x in trees], "nameds": [x[1] for x in trees],
+                        "port": pi, "order": order,
+                        "what": "port %d of a service with %d ports sharing the operation name f, ports called in "
+                                "the order %r" % (pi + 1, len(trees), [o + 1 for o in order])}
+                exercise(t, named, c1, rec1, c0, rec0, port="port%d" % (pi + 1), wel="Wrapper%d" % (pi + 1),
+                         scen=scen, thin=True)
+
+    # 2c. the WSDL object comes out of an ObjectCache (cachingpolicy=1) filled by a client whose
+    # `unwrap` option differs from that of the client under test - both orders
+    import shutil
+    import tempfile
+    import suds.cache
+    for t, named in cached_structures(ck, client_structs):
+        wsdl = sudsutil.doc_wsdl(wrapper_schema(t, named))
+        for first_unwrap in (True, False):
+            tmp = tempfile.mkdtemp(prefix="verif-c08-cache-", dir="/var/tmp")
+            try:
+                recs = {True: make_recorder(), False: make_recorder()}
+                cl = {}
+                try:
+                    for u in (first_unwrap, not first_unwrap):
+                        cl[u] = sudsutil.client_from_wsdl(wsdl, transport=recs[u], unwrap=u, cachingpolicy=1,
+                                                          cache=suds.cache.ObjectCache(location=tmp, days=1))
+                except Exception as e:   # noqa
+                    ck.failing_input("C08:client-construction", "a client over a shared object cache cannot be "
+                                     "built: %r" % (e,), {"kind": "client", "tree": t, "named": named})
+                    continue
+                scen = {"type": "cache", "first_unwrap": first_unwrap,
+                        "what": "WSDL objects shared through an ObjectCache (cachingpolicy=1) filled by a client "
+                                "with unwrap=%r, then used by one with unwrap=%r" % (first_unwrap, not first_unwrap)}
+                exercise(t, named, cl[True], recs[True], cl[False], recs[False], scen=scen, thin=True)
+            finally:
+                shutil.rmtree(tmp, ignore_errors=True)
+
     if cmeta:
-        t, named, args, kw, extra, r = cmeta[len(cmeta) // 3]
+        t, named, args, kw, extra, r, scen = cmeta[len(cmeta) // 3]
         ck.sample({"client structure": c_tree(t), "args": [pval(v) for v in args],
                    "kwargs": [(pname(k), pval(v)) for k, v in kw], "extraArgumentErrors": extra,
                    "observed": [r[0], r[1][:200].decode("utf-8", "replace") if isinstance(r[1], bytes) else r[1]]})
@@ -990,12 +1119,14 @@ def run(ck):
                          ["client_agrees", "client_spec_ok"], shard=400)
     cspec_bad = set(res_c["client_spec_ok"])
     for i in sorted(cspec_bad)[:50]:
-        t, named, args, kw, extra, r = cmeta[i]
-        ck.failing_input(classify_client_failure(t, args, kw, extra, r),
+        t, named, args, kw, extra, r, scen = cmeta[i]
+        ck.failing_input(classify_client_failure(t, args, kw, extra, r, scen),
                          "client.service.f(*%r, **%r) on structure %s (extraArgumentErrors=%r) -> %s: not what the "
-                         "property prescribes" % ([pval(v) for v in args], dict((pname(k), pval(v)) for k, v in kw),
-                                                  c_tree(t), extra, (r[0], r[1] if r[0] != "sent" else "request sent")),
-                         {"kind": "client", "tree": t, "named": named, "args": args, "kw": kw, "extra": extra})
+                         "property prescribes%s" % ([pval(v) for v in args], dict((pname(k), pval(v)) for k, v in kw),
+                                                    c_tree(t), extra, (r[0], r[1] if r[0] != "sent" else "request sent"),
+                                                    " [%s]" % scen["what"] if scen else ""),
+                         {"kind": "client", "tree": t, "named": named, "args": args, "kw": kw, "extra": extra,
+                          "scenario": scen})
     client_disagree = [i for i in res_c["client_agrees"] if i not in cspec_bad]
 
     phases["clients"] = round(time.time() - t_ph, 1)
@@ -1118,8 +1249,8 @@ def _same_infoset(a, b):
         return False
 
 
-def client_param_name(client):
-    m = client.service.f.method
+def client_param_name(client, port=None):
+    m = service_of(client, port).f.method
     defs = m.binding.input.param_defs(m)
     return defs[0][0] if defs else ""
 
@@ -1163,6 +1294,27 @@ def client_structures(ck):
     return out
 
 
+def multiport_structures(ck, client_structs):
+    """Groups of 2-3 DIFFERENT structures (different parameter counts or shapes) served by one service."""
+    rng = ck.rng
+    pool = [x for x in client_structs if len(flatten(x[0])) <= 4]
+    groups = []
+    want = 10 if ck.tier == "thorough" else 4
+    tries = 0
+    while len(groups) < want and tries < 200:
+        tries += 1
+        g = rng.sample(pool, 3 if len(groups) % 3 == 2 else 2)
+        if len(set(c_tree(x[0]) for x in g)) == len(g) and len(set(len(flatten(x[0])) for x in g)) > 1:
+            groups.append(g)
+    return groups
+
+
+def cached_structures(ck, client_structs):
+    rng = ck.rng
+    pool = [x for x in client_structs if 2 <= len(flatten(x[0])) <= 4]
+    return rng.sample(pool, min(len(pool), 10 if ck.tier == "thorough" else 3))
+
+
 def classify_parse_failure(t, args, kw, extra, raw):
     if raw[0] == "ok" and extra:
         return "C08:parse-args-accepts-bad-call"
@@ -1173,7 +1325,11 @@ def classify_parse_failure(t, args, kw, extra, raw):
     return "C08:parse-args-wrong-rejection"
 
 
-def classify_client_failure(t, args, kw, extra, r):
+def classify_client_failure(t, args, kw, extra, r, scen=None):
+    if scen and scen.get("type") == "multiport":
+        return "C08:multiport-wrong-operation-structure"
+    if scen and scen.get("type") == "cache":
+        return "C08:cached-wsdl-wrong-unwrap-mode"
     if r[0] == "sent":
         return "C08:client-accepts-bad-call"
     if not extra:
